@@ -182,6 +182,169 @@ theorem nextWindow_own : ∀ (fuel : Nat) (a : Actor) (vals : List Int),
           · exact Or.inr (Or.inr hs)
         · simp at h
 
+/-! ### the selected sample is the first one of a new second -/
+
+theorem findWindow_go_first (prev : Int) : ∀ (c : List Sample) (i : Nat) (r : Nat × Sample),
+    findWindow.go prev i c = some r →
+      i ≤ r.1 ∧ c[r.1 - i]? = some r.2 ∧ ceilSec r.2.ts ≠ prev ∧
+      ∀ j, j < r.1 - i → ∃ s, c[j]? = some s ∧ ceilSec s.ts = prev := by
+  intro c
+  induction c with
+  | nil => intro i r h; simp [findWindow.go] at h
+  | cons s rest ih =>
+    intro i r h
+    simp only [findWindow.go] at h
+    split at h
+    · rename_i hne
+      injection h with h; subst h
+      exact ⟨Nat.le_refl _, by simp, hne, by intro j hj; simp at hj⟩
+    · rename_i heq
+      obtain ⟨h1, h2, h3, h4⟩ := ih (i + 1) r h
+      refine ⟨by omega, ?_, h3, ?_⟩
+      · have e : r.1 - i = (r.1 - (i + 1)) + 1 := by omega
+        rw [e, List.getElem?_cons_succ]; exact h2
+      · intro j hj
+        cases j with
+        | zero => exact ⟨s, by simp, by simpa using heq⟩
+        | succ j =>
+          obtain ⟨s', e1, e2⟩ := h4 j (by omega)
+          exact ⟨s', by simpa using e1, e2⟩
+
+/-- **`findWindow` selects the first sample, at or after the previous position, whose wall-clock
+second differs from the previous one**: every sample it skips lies in the previous second -/
+theorem findWindow_first (c : GChunk) (from_ : Nat) (prev : Int) (i : Nat) (s : Sample)
+    (h : findWindow c from_ prev = some (i, s)) :
+    from_ ≤ i ∧ c[i]? = some s ∧ ceilSec s.ts ≠ prev ∧
+    ∀ j, from_ ≤ j → j < i → ∃ s', c[j]? = some s' ∧ ceilSec s'.ts = prev := by
+  obtain ⟨h1, h2, h3, h4⟩ := findWindow_go_first prev (c.drop from_) from_ (i, s) h
+  simp only at h1 h2 h3 h4
+  refine ⟨h1, ?_, h3, ?_⟩
+  · rw [List.getElem?_drop] at h2
+    have : from_ + (i - from_) = i := by omega
+    rw [this] at h2; exact h2
+  · intro j hj1 hj2
+    obtain ⟨s', e1, e2⟩ := h4 (j - from_) (by omega)
+    rw [List.getElem?_drop] at e1
+    have : from_ + (j - from_) = j := by omega
+    rw [this] at e1
+    exact ⟨s', e1, e2⟩
+
+/-! ### selected positions never move backwards -/
+
+/-- lexicographic order on (chunk number, index) -/
+def PosLe (a b : Nat × Nat) : Prop := a.1 < b.1 ∨ (a.1 = b.1 ∧ a.2 ≤ b.2)
+
+/-- the recorded positions are non-decreasing, and the last one is not ahead of the cursor -/
+def Mono (a : Actor) : Prop :=
+  a.picks.Pairwise PosLe ∧ ∀ p ∈ a.picks, PosLe p (a.chunkNo, a.prevIdx)
+
+theorem posLe_trans {a b c : Nat × Nat} (h1 : PosLe a b) (h2 : PosLe b c) : PosLe a c := by
+  unfold PosLe at *; omega
+
+theorem mono_ensureChunk (a : Actor) (h : Mono a) : Mono a.ensureChunk := by
+  unfold Actor.ensureChunk
+  split <;> exact h
+
+theorem mono_pick (a : Actor) (i : Nat) (s : Sample) (h : Mono a) (hi : a.prevIdx ≤ i) : Mono (a.pick i s) := by
+  obtain ⟨h1, h2⟩ := h
+  have hle : ∀ p ∈ a.picks, PosLe p (a.chunkNo, i) := by
+    intro p hp; exact posLe_trans (h2 p hp) (by unfold PosLe; simp; omega)
+  refine ⟨?_, ?_⟩
+  · simp only [Actor.pick]
+    rw [List.pairwise_append]
+    exact ⟨h1, by simp, by intro x hx y hy; simp at hy; subst hy; exact hle x hx⟩
+  · intro p hp
+    simp only [Actor.pick, List.mem_append, List.mem_cons, List.not_mem_nil, or_false] at hp ⊢
+    rcases hp with hp | rfl
+    · exact hle p hp
+    · unfold PosLe; simp
+
+theorem mono_advance (a : Actor) (c : GChunk) (r : List GChunk) (h : Mono a) : Mono (a.advance c r) := by
+  obtain ⟨h1, h2⟩ := h
+  refine ⟨h1, ?_⟩
+  intro p hp
+  have := h2 p hp
+  simp only [Actor.advance]
+  unfold PosLe at *; simp at *; omega
+
+theorem mono_nextWindow : ∀ (fuel : Nat) (a : Actor), Mono a → Mono (nextWindow fuel a).1 := by
+  intro fuel
+  induction fuel with
+  | zero => intro a h; exact h
+  | succ f ih =>
+    intro a h
+    have hb := mono_ensureChunk a h
+    simp only [nextWindow]
+    generalize a.ensureChunk = b at hb ⊢
+    split
+    · exact hb
+    · rename_i c hc
+      split
+      · rename_i i s hf
+        exact mono_pick b i s hb (findWindow_first c _ _ i s hf).1
+      · split
+        · rename_i c' r hr
+          exact ih _ (mono_advance b c' r hb)
+        · exact hb
+
+theorem mono_stepActor (t : Int) (a : Actor) (h : Mono a) : Mono (stepActor t a).1 := by
+  unfold stepActor
+  split
+  · have := mono_nextWindow (a.rest.length + 2) a h
+    split <;> simp_all
+  · exact h
+
+theorem mono_stepSecond (t : Int) (as : List Actor) (h : ∀ a ∈ as, Mono a) :
+    ∀ a ∈ (stepSecond t as).1, Mono a := by
+  intro a ha
+  simp only [stepSecond, List.map_map, List.mem_map, Function.comp] at ha
+  obtain ⟨a0, h0, rfl⟩ := ha
+  exact mono_stepActor t a0 (h a0 h0)
+
+/-- the actor states after `k` seconds of the main loop (what `loopSeconds` threads through) -/
+def statesAfter : Nat → Int → List Actor → List Actor
+  | 0, _, as => as
+  | k + 1, t, as => statesAfter k (t + 1) (stepSecond t as).1
+
+/-- **Selected positions never move backwards**: after any number of seconds of the main loop the
+positions (chunk number, index) every actor has selected so far are non-decreasing, for actors
+that start with nothing selected. -/
+theorem picks_never_move_backwards (as : List Actor) (h0 : ∀ a ∈ as, a.picks = []) :
+    ∀ (k : Nat) (t : Int), ∀ a ∈ statesAfter k t as, a.picks.Pairwise PosLe := by
+  have hm : ∀ a ∈ as, Mono a := by
+    intro a ha; simp [Mono, h0 a ha]
+  intro k
+  suffices ∀ (as : List Actor), (∀ a ∈ as, Mono a) → ∀ t, ∀ a ∈ statesAfter k t as, Mono a from
+    fun t a ha => (this as hm t a ha).1
+  induction k with
+  | zero => intro as h t a ha; exact h a ha
+  | succ k ih =>
+    intro as h t a ha
+    exact ih _ (mono_stepSecond t as h) (t + 1) a ha
+
+/-- `loopSeconds` is the output of exactly those states -/
+theorem loopSeconds_states : ∀ (fuel : Nat) (t stop : Int) (as : List Actor) (k : Nat),
+    k < (loopSeconds fuel t stop as).length →
+    (loopSeconds fuel t stop as)[k]? = some (stepSecond (t + k) (statesAfter k t as)).2 := by
+  intro fuel
+  induction fuel with
+  | zero => intro t stop as k hk; simp [loopSeconds] at hk
+  | succ f ih =>
+    intro t stop as k hk
+    simp only [loopSeconds] at hk ⊢
+    split at hk
+    · rename_i hlt
+      rw [if_pos hlt]
+      cases k with
+      | zero => simp [statesAfter]
+      | succ k =>
+        simp only [List.length_cons] at hk
+        have := ih (t + 1) stop (stepSecond t as).1 k (by omega)
+        simp only [List.getElem?_cons_succ, statesAfter]
+        rw [this]
+        congr 3; push_cast; omega
+    · simp at hk
+
 /-! non-vacuity -/
 example : (translate [{ name := "a", rest := [[⟨1500, [1,1,1,0,5,5,1,0]⟩, ⟨2500, [2,2,2,0,9,9,1,0]⟩]],
                         startTime := 2, endTime := 4 }]).length = 2 := by decide
